@@ -176,6 +176,47 @@ def check_fast(ident, payload, rng):
     return None
 
 
+def check_fast_pair(ident_a, ident_b, pa, pb, rng, pattern=None):
+    """two fast-packet messages whose frames ALTERNATE on the bus (same PGN and source, two destinations; or two
+    sources): frame by frame through EByte / USB / Yacht Devices into one decoder each message comes back as the
+    pre-assembled canboat line of it gives"""
+    from nmea2000.decoder import NMEA2000Decoder
+    refs = []
+    for ident, payload in ((ident_a, pa), (ident_b, pb)):
+        line = W.render(4, ident, payload, rng, ref_extract, False)
+        try:
+            refs.append(_msg_tuple(NMEA2000Decoder().decode_basic_string(line, True)))
+        except Exception:  # noqa: BLE001
+            return None
+    fa, fb = _segment(pa, rng.randrange(8)), _segment(pb, rng.randrange(8))
+    if pattern is None:
+        pattern = [0] * len(fa) + [1] * len(fb)
+        rng.shuffle(pattern)
+    for name, fmt, meth in (("ebyte", 0, "decode_tcp"), ("usb", 1, "decode_usb"), ("yd", 2, "decode_yacht_devices_string")):
+        d = NMEA2000Decoder()
+        ia = ib = 0
+        got = {0: [], 1: []}
+        try:
+            for t in pattern:
+                ident, f = (ident_a, fa[ia]) if t == 0 else (ident_b, fb[ib])
+                if t == 0:
+                    ia += 1
+                else:
+                    ib += 1
+                m = getattr(d, meth)(W.render(fmt, ident, f, rng, ref_extract, False))
+                if m is not None:
+                    got[t].append(_msg_tuple(m))
+        except Exception as e:  # noqa: BLE001
+            got = {0: [("raises", type(e).__name__)], 1: []}
+        if got[0] != [refs[0]] or got[1] != [refs[1]]:
+            return {"key": f"assembled:interleaved:{name}", "kind": "fast-pair", "ia": ident_a, "ib": ident_b, "pa": pa.hex(),
+                    "pb": pb.hex(), "pattern": pattern,
+                    "what": f"two fast-packet messages of PGN {ref_extract(ident_a)[0]} with alternating frames (identifiers "
+                            f"{ident_a:#x} / {ident_b:#x}, order {pattern}) through {name}: {len(got[0])} + {len(got[1])} message(s) "
+                            f"returned / other content, pre-assembled each decodes to one message"}
+    return None
+
+
 def fast_payloads(ctx, want):
     """(pgn, payload) of fast-packet PGNs that decode (pre-assembled); short payloads (<= 8 bytes) first"""
     import re as _re
@@ -184,6 +225,7 @@ def fast_payloads(ctx, want):
     rng = ctx.rng
     pgns = sorted(int(m.group(1)) for nm in dir(P) for m in [_re.fullmatch(r"is_fast_pgn_(\d+)", nm)] if m)
     rng.shuffle(pgns)
+    pgns.sort(key=lambda x: ((x >> 8) & 0xFF) >= 240)      # the few ADDRESSED fast-packet PGNs first: always in the sample
     out = []
     for pgn in pgns:
         if len(out) >= want:
@@ -246,7 +288,32 @@ def search(ctx):
         ps = rng.getrandbits(8) if pf < 240 else (pgn & 0xFF)
         ident = (rng.getrandbits(3) << 26) | ((pgn >> 8) << 16) | (ps << 8) | rng.getrandbits(8)
         add(check_fast(ident, payload, rng))
-    out += E2E.search(ctx)
+    # two messages with alternating frames: same PGN and source to two destinations (addressed PGNs), or two sources
+    by_pgn = {}
+    for pgn, payload in fps:
+        by_pgn.setdefault(pgn, []).append(payload)
+    npairs = 0
+    for pgn, pls in by_pgn.items():
+        if npairs >= ctx.n(40, 300):
+            break
+        pl = [x for x in pls if len(x) > 8] or pls
+        pa, pb = rng.choice(pl), rng.choice(pl)
+        pf = (pgn >> 8) & 0xFF
+        src, prio = rng.getrandbits(8), rng.getrandbits(3)
+        if pf < 240:
+            da, db = rng.sample(range(256), 2)
+            ia = (prio << 26) | ((pgn >> 8) << 16) | (da << 8) | src
+            ib = (prio << 26) | ((pgn >> 8) << 16) | (db << 8) | src
+        else:
+            sb = (src + 1 + rng.randrange(254)) % 256
+            ia = (prio << 26) | (pgn << 8) | src
+            ib = (prio << 26) | (pgn << 8) | sb
+        npairs += 1
+        add(check_fast_pair(ia, ib, pa, pb, rng))
+    try:
+        out += E2E.search(ctx)
+    except Exception as e:  # noqa: BLE001   (what was found so far is not lost)
+        ctx.notes.append(f"end-to-end glue search raised {e!r}")
     return out
 
 
@@ -254,6 +321,12 @@ def replay(ctx, data):
     w = data.get("witness", data)
     if w.get("kind") == "e2e-glue":
         return E2E.replay(ctx, data)
+    if w.get("kind") == "fast-pair":
+        import random
+        r = check_fast_pair(w["ia"], w["ib"], bytes.fromhex(w["pa"]), bytes.fromhex(w["pb"]), random.Random(0), pattern=w["pattern"])
+        print("expected: each of two messages with alternating frames comes back as its pre-assembled line decodes")
+        print("observed:", r["what"] if r else "property holds on this input")
+        return r is not None
     inputs = [i for i in w["inputs"]] if w.get("kind") != "fast" else None
     if w.get("kind") == "fast":
         import random
